@@ -10,7 +10,7 @@ WT = "/tmp/mech_eval_wt"
 ENV = dict(os.environ, GOFLAGS="-mod=mod", GOPROXY="off", GOSUMDB="off", GOTOOLCHAIN="local")
 args = [a for a in sys.argv[1:] if a != "--test"]
 runtests = "--test" in sys.argv
-KINDS = ["rename-locals", "rotate-select", "invert-if", "nest-else", "swap-compare", "reverse-decls", "switch-to-if", "split-and"]
+KINDS = ["rename-locals", "rotate-select", "invert-if", "nest-else", "swap-compare", "reverse-decls", "switch-to-if", "split-and", "unlock-to-defer"]
 kinds = args or KINDS + ["all"]
 claimed = [c["property_id"] for c in json.load(open("MANIFEST.json"))["checks"]]
 subprocess.run(["git", "-C", "/repo", "worktree", "remove", "--force", WT], capture_output=True)
